@@ -72,3 +72,6 @@ package ast
 
 //@ func (Query).GetSortFields
 //@   pure
+
+//@ func NewUnknownSymbolError
+//@   pure
